@@ -199,6 +199,14 @@ def r1(ctx, cfg):
     # Deps (read-only) is built from a shared store
     adt_ok = True
     ctx.ob(R, "-", "no-statics", not F.statics, "statics present", sample="0")
+    # a query is handed `&self` and `&dyn Storage`: it cannot change anything *unless* a part of the application it can reach
+    # is writable through a shared reference (a `RefCell` / `Cell` / `Mutex` cache in a keeper would also keep what a
+    # rolled-back transaction wrote, outside the store that is rolled back)
+    from vlib import crate_rules
+    from rules import C19
+    im = [(p, b) for p, b in crate_rules.interior_mut_types(F) if p not in C19.NO_INTERIOR_MUT_EXCEPTIONS]
+    ctx.ob(R, "-", "nothing-writable-through-a-shared-reference", not im, "types with interior mutability: %s" % im[:4],
+           sample="%d local ADTs; named exception: CachingCustomHandler (opt-in recorder)" % len(F.adts))
 
 
 def _local_targets(F, c, impl_index):
